@@ -28,16 +28,35 @@ def run_tempo(system, oper, corr, rho0, start, dt, nsteps, params, unique):
 
 
 def run_pt(system, oper, corr, rho0, start, dt, nsteps, params, unique,
-           subdiv_limit=256):
+           subdiv_limit=256, file_backed=False):
+    """PT-TEMPO + compute_dynamics; with file_backed the process tensor is
+    computed straight into an HDF5 file (removed afterwards)."""
+    import os
+    import tempfile
     import oqupy
     bath = oqupy.Bath(oper, corr)
-    pt = oqupy.pt_tempo_compute(bath, start, end_time(start, dt, nsteps),
-                                params, unique=unique,
-                                progress_type="silent")
-    dyn = oqupy.compute_dynamics(system, rho0, start_time=start,
-                                 process_tensor=pt,
-                                 subdiv_limit=subdiv_limit,
-                                 progress_type="silent")
+    fn = None
+    if file_backed:
+        fd, fn = tempfile.mkstemp(prefix="vp_pt_", suffix=".hdf5")
+        os.close(fd)
+        os.remove(fn)
+    try:
+        pt = oqupy.pt_tempo_compute(bath, start, end_time(start, dt, nsteps),
+                                    params, unique=unique,
+                                    process_tensor_file=fn,
+                                    progress_type="silent")
+        dyn = oqupy.compute_dynamics(system, rho0, start_time=start,
+                                     process_tensor=pt,
+                                     subdiv_limit=subdiv_limit,
+                                     progress_type="silent")
+    finally:
+        if fn is not None:
+            try:
+                pt.close()
+            except Exception:   # noqa
+                pass
+            if os.path.exists(fn):
+                os.remove(fn)
     return dyn
 
 
